@@ -13,10 +13,16 @@
     established by `new` and preserved by every parse call (`tailClean_*`) — so it holds for every
     reachable state: after complete, suspended or failed parses, any number of them.
   * PHdrVals / PSIPMsg: composition (`reset_hdrvals`, `reset_msg`).
+  * URI parameter list / URI header list, whole histories (`uriparams_any_history`, `urihdrs_any_history`,
+    `uriparams_behave_like_new`, `urihdrs_behave_like_new`): take a new object of any capacity, apply ANY sequence of
+    ParseAllURIParams / ParseAllURIHdrs calls (any buffers, offsets, flags; complete, suspended, failed) and Reset
+    calls, then Reset: the object is literally the new object of that capacity, and every later parse call returns
+    what it returns on a new object.
 -/
 import Sipsp.Model.Msg
 import Sipsp.Model.Params
 import Sipsp.Model.URI
+import Sipsp.Proofs.ResetLists
 
 namespace Sipsp.C12
 open Sipsp
@@ -191,5 +197,26 @@ theorem reset_msg (m : PSIPMsg) (h : TailClean m.pv.contacts.vals {} m.pv.contac
 example :
     let c := (parseAllContactValues #[60, 115, 105, 112, 58, 97, 62, 44, 60, 115] 0 { vals := Array.replicate 3 {} }).2.2
     c.n = 1 ∧ c.reset.n = 0 := by decide +kernel
+
+/-! ### URI parameter / header lists: any history of uses, then Reset = new -/
+
+/-- `hist`: `some (buf, offs, flags)` = a parse call, `none` = a Reset -/
+theorem uriparams_any_history (cap : Nat) (hist : List (Option (Buf × Nat × Nat))) :
+    (hist.foldl uriParamsUse { params := Array.replicate cap {} }).reset = { params := Array.replicate cap {} } :=
+  uriParams_reset_after_uses cap hist
+
+theorem urihdrs_any_history (cap : Nat) (hist : List (Option (Buf × Nat × Nat))) :
+    (hist.foldl uriHdrsUse { hdrs := Array.replicate cap {} }).reset = { hdrs := Array.replicate cap {} } :=
+  uriHdrs_reset_after_uses cap hist
+
+theorem uriparams_behave_like_new (cap : Nat) (hist : List (Option (Buf × Nat × Nat))) (b : Buf) (offs flags : Nat) :
+    parseAllURIParams b offs (hist.foldl uriParamsUse { params := Array.replicate cap {} }).reset flags =
+      parseAllURIParams b offs { params := Array.replicate cap {} } flags :=
+  uriParams_behaves_like_new cap hist b offs flags
+
+theorem urihdrs_behave_like_new (cap : Nat) (hist : List (Option (Buf × Nat × Nat))) (b : Buf) (offs flags : Nat) :
+    parseAllURIHdrs b offs (hist.foldl uriHdrsUse { hdrs := Array.replicate cap {} }).reset flags =
+      parseAllURIHdrs b offs { hdrs := Array.replicate cap {} } flags :=
+  uriHdrs_behaves_like_new cap hist b offs flags
 
 end Sipsp.C12
